@@ -121,6 +121,12 @@ class Interp:
         if k == "ci":
             return T.const(c["bits"], c["v"])
         if k == "cf":
+            if c["bits"] == 80:
+                import fpeval
+                v = fpeval.from_x87(c["v"])
+                if v is None:
+                    return T.opaque(80, "x87-unnormal-const")
+                return T.const(80, v)
             return T.const(c["bits"], c["v"])
         if k == "cz":
             return T.const(c["t"]["bits"], 0)
@@ -462,6 +468,9 @@ class Interp:
             return T.concat([T.slice_(x, 0, eb) for x in self.lanes(a, n, sw)])
         if opn in ("bitcast", "ptrtoint", "inttoptr", "addrspacecast", "freeze"):
             a = V(0)
+            if opn == "bitcast" and bits == 80:
+                # the x87 bit layout is not the private encoding of lib/fpeval.py (FMT[80])
+                return T.opaque(bits, "bitcast-x86_fp80", a)
             if a[1] != bits:
                 if a[1] < bits:
                     return T.zext(a, bits)
@@ -515,7 +524,11 @@ class Interp:
             p = V(0)
             if ins.get("volatile"):
                 S.flags.add("volatile")
-            return self.do_load(p, bits, cond, ins.get("align", 1), "load", ins.get("loc"))
+            r = self.do_load(p, bits, cond, ins.get("align", 1), "load", ins.get("loc"))
+            if ty.get("s") == "x86_fp80":
+                # memory holds the x87 layout, the closed forms use the private encoding of lib/fpeval.py
+                return T.opaque(bits, "load-x86_fp80", r)
+            return r
         if opn == "store":
             v, p = V(0), V(1)
             if ins.get("volatile"):
